@@ -51,12 +51,14 @@ theorem C16_gen_shape :
     installation, and only then the table insertion and the finalizer — so a registration that fails has not
     touched the table (`C16_failed_register_unchanged`).  And for json and msgpack, for each builtin base type
     that `default()` converts (set, UUID, Decimal, datetime, date, array), a registered type replacement wins
-    over the conversion — so a registered object of such a class is proxied like any other (the model's
-    `returnObj` runs the hook first for every object and serializer). -/
+    over the conversion, and for serpent (which dispatches on `isinstance`) an instance of a subclass still gets
+    the replacement when one was installed for its base class first — so a registered object of such a class
+    is proxied like any other (the model's `returnObj` runs the hook first for every object and serializer). -/
 theorem C16_gen_order :
     Pyro.Gen.C16.registerEffects = ["lookup", "attrs", "hooks", "insert", "finalize", "return"] ∧
     (∀ p ∈ Pyro.Gen.C16.defaultHookFirst, p.2 = true) ∧
-    ("json:set", true) ∈ Pyro.Gen.C16.defaultHookFirst ∧ ("json:array", true) ∈ Pyro.Gen.C16.defaultHookFirst := by decide
+    ("json:set", true) ∈ Pyro.Gen.C16.defaultHookFirst ∧ ("json:array", true) ∈ Pyro.Gen.C16.defaultHookFirst ∧
+    ("serpent:subclass-after-base", true) ∈ Pyro.Gen.C16.defaultHookFirst := by decide
 
 /-! ### the property -/
 
